@@ -20,7 +20,8 @@ def valid_user_alphabets():
     two = {a: ("L" if a in "LVIMCAGSTPFYW" else "E") for a in T.AA}
     three = {a: ("K" if a in "KRH" else ("S" if a in "ST" else "A")) for a in T.AA}
     rot = {a: T.AA[(i + 7) % 20] for i, a in enumerate(T.AA)}
-    return {"identity": ident, "two": two, "three": three, "rotation": rot}
+    chain = {a: ("K" if a in "LKDE" else "L") for a in T.AA}     # not idempotent and merging
+    return {"identity": ident, "two": two, "three": three, "rotation": rot, "chain": chain}
 
 
 def check_partition(case):
@@ -164,6 +165,51 @@ def check_laws(case):
                 out.append({"key": "wrong-group", "what": "size %d: in %s residue %s became %s (group %s)" % (size, u + w, a, b, gm[a]),
                             "case": dict(case, size=size)})
                 break
+    return out, calls
+
+
+def check_repsets(case):
+    """Sequences whose set of residue types is exactly the representative list of one predefined alphabet (or one of the user
+    alphabets' target sets), reduced with EVERY predefined size and every user alphabet: residue by residue, whatever the letters."""
+    out = []
+    calls = 0
+    hosts = {}
+    for s1 in T.SIZES:
+        try:
+            reps = list(red("".join(T.AA), alphabetSize=s1)[1])     # the representatives the library itself reports for that size
+        except Exception:  # noqa
+            reps = [g[0] for g in T.REDUCED[s1]]
+        hosts["representatives of size %d" % s1] = "".join(reps) + "".join(reversed(reps))[: max(1, 12 - len(reps))]
+    for name, ua in valid_user_alphabets().items():
+        tg = sorted(set(ua.values()))
+        hosts["targets of user alphabet %s" % name] = "".join(tg) * (2 if len(tg) < 6 else 1)
+    for hname, seq in hosts.items():
+        for s2 in T.SIZES:
+            gm = {a: g for g in T.REDUCED[s2] for a in g}
+            calls += 1
+            try:
+                r, alph = red(seq, alphabetSize=s2)
+            except Exception as e:  # noqa
+                out.append({"key": "exception", "what": "%s reduced with size %d raised %r" % (hname, s2, e), "case": dict(case, host=hname, size=s2)})
+                continue
+            reps2 = {}
+            bad = len(r) != len(seq) or len(alph) != s2
+            for a, b in zip(seq, r):
+                if b not in gm[a] or reps2.setdefault(gm[a], b) != b:
+                    bad = True
+            if bad:
+                out.append({"key": "wrong-group", "what": "%s (%s) reduced with size %d gives %s with alphabet %r" % (hname, seq, s2, r, list(alph)),
+                            "case": dict(case, host=hname, size=s2)})
+        for name, ua in valid_user_alphabets().items():
+            calls += 1
+            try:
+                r, alph = red(seq, userAlphabet=dict(ua))
+            except Exception as e:  # noqa
+                out.append({"key": "valid-user-alphabet-rejected", "what": "%s with user alphabet %s raised %r" % (hname, name, e), "case": dict(case, host=hname, ua=name)})
+                continue
+            if r != "".join(ua[a] for a in seq):
+                out.append({"key": "user-alphabet-application", "what": "%s (%s) with user alphabet %s gives %s, expected %s"
+                            % (hname, seq, name, r, "".join(ua[a] for a in seq)), "case": dict(case, host=hname, ua=name)})
     return out, calls
 
 
@@ -353,7 +399,7 @@ def check_user(case):
 
 
 def check_case(case):
-    return {"partition": check_partition, "sizes": check_sizes, "laws": check_laws, "user": check_user}[case["kind"]](case)
+    return {"partition": check_partition, "sizes": check_sizes, "laws": check_laws, "user": check_user, "repsets": check_repsets}[case["kind"]](case)
 
 
 def shard(cases):
@@ -376,7 +422,7 @@ def shard(cases):
 
 
 def run(tier, seed, t0):
-    cases = [{"kind": "partition", "size": s} for s in T.SIZES] + [{"kind": "sizes"}, {"kind": "user"}]
+    cases = [{"kind": "partition", "size": s} for s in T.SIZES] + [{"kind": "sizes"}, {"kind": "user"}, {"kind": "repsets"}]
     w1 = list(T.AA)
     w2 = ["".join(t) for t in itertools.product(T.AA, repeat=2)]
     if tier == "quick":
@@ -392,7 +438,7 @@ def run(tier, seed, t0):
         rule="exhaustive: 12 sizes x 20 residues against the documented partition table (representative is a member of the "
              "residue's own group, one representative per group, exactly `size` of them, returned alphabet = representatives); "
              "sizes -1..26 and 6 non-integers (exactly the 12 accepted); length / concatenation / idempotence laws on %d word pairs "
-             "x 12 sizes; 4 valid user alphabets applied residue by residue, each with every single fault (20 keys x {missing, "
+             "x 12 sizes; sequences whose letter set is exactly the representative list of a predefined size (or the target set of a user alphabet) reduced with every size and user alphabet; 5 valid user alphabets (one not idempotent and merging) applied residue by residue, each with every single fault (20 keys x {missing, "
              "lower case, X, empty, int, two letters, None, whitespace-padded letters, bytes, one-element list/tuple, and X / lower case / * that are ALSO keys of the dictionary}) and 6 non-dict arguments rejected; "
              "each valid alphabet together with each of the 12 predefined sizes (int, float, string); a rejected alphabet (fault at each of the 20 positions) between two requests for the same size on one object, for all 12 sizes; one dictionary object edited in place between calls; "
              "each valid alphabet also with its keys inserted in 5 other orders, with and without extra non-amino-acid keys (same result); "
